@@ -13,7 +13,7 @@ for d in sorted(glob.glob(os.path.join(ROOT, "seeded", "*"))):
     m = json.load(open(os.path.join(d, "meta.json")))
     note = (m.get("note") or m.get("history") or "").lower()
     rnd = {"A": 1, "B": 1, "C": 2, "D": 2, "E": 3, "F": 3, "G": 4, "H": 4}[os.path.basename(d)[-1]]
-    missed = any(k in note for k in ("missed", "would have missed", "only after", "inconclusive", "same gap as"))
+    missed = any(k in note for k in ("missed it", "missed this", "would have missed", "only after", "was inconclusive", "same gap as"))
     st[(rnd, "missed" if missed else "at once")] += 1
 for r in (1, 2, 3, 4):
     a, b = st[(r, "at once")], st[(r, "missed")]
